@@ -74,3 +74,8 @@ Example C12_latch_example :
                {| lw_id := 3; lw_sync := false; lw_app := WlAOk; lw_sync_ok := true |} ]
   = ([true; false; false], true, [1], [1]).
 Proof. vm_compute. reflexivity. Qed.
+Theorem C12_session_no_acknowledged_loss : forall os,
+  let r := wl_run wl_step wl_init os in
+  exists extra, wl_recovered (wl_logf (fst r)) = wl_acked_ids os (snd r) ++ extra /\ (length extra <= 1)%nat.
+Proof. exact latch_no_acknowledged_loss. Qed.
+Print Assumptions C12_session_no_acknowledged_loss.
